@@ -13,9 +13,17 @@ import (
 	"strings"
 )
 
+type callRec struct {
+	name string // types.Func FullName
+	args []*Term
+	lits []string // constant string arguments ("" when not constant), same indexing as args
+}
+
 type State struct {
 	log     []string // ghost log of literal byte strings written through Write([]byte("literal")); "?" = not a literal
 	logBad  bool     // logs of merged branches disagreed: the log is unknown from here on
+	calls     []callRec // ghost log of calls into code outside the verified module (library / external), with argument terms
+	callsOpen bool      // an unknown number of unknown calls precedes calls[0] (loop head, merge, modular call)
 	epoch   *Term // changes whenever the heap may have changed (results of heap-reading pure calls depend on it)
 	env     map[types.Object]*Term
 	heap    map[string]*Term
@@ -41,6 +49,8 @@ func (s *State) clone() *State {
 	n.assumes = append([]*Term(nil), s.assumes...)
 	n.log = append([]string(nil), s.log...)
 	n.logBad = s.logBad
+	n.calls = append([]callRec(nil), s.calls...)
+	n.callsOpen = s.callsOpen
 	return n
 }
 
@@ -296,7 +306,13 @@ func (x *Exec) merge(base *State, states ...*State) *State {
 	m.epoch = live[0].epoch
 	m.log = append([]string(nil), live[0].log...)
 	m.logBad = live[0].logBad
+	m.calls = append([]callRec(nil), live[0].calls...)
+	m.callsOpen = live[0].callsOpen
 	for _, s := range live {
+		if s.callsOpen != m.callsOpen || !sameCalls(s.calls, m.calls) {
+			m.callsOpen = true
+			m.calls = nil
+		}
 		if s.epoch != m.epoch {
 			m.epoch = nil
 		}
@@ -1449,4 +1465,21 @@ func (x *Exec) loadField(s *State, ref *Term, si *structInfo, i int) *Term {
 
 func exprString(e ast.Expr) string {
 	return types.ExprString(e)
+}
+
+func sameCalls(a, b []callRec) bool {
+	if len(a) != len(b) {
+		return false
+	}
+	for i := range a {
+		if a[i].name != b[i].name || len(a[i].args) != len(b[i].args) {
+			return false
+		}
+		for j := range a[i].args {
+			if a[i].args[j] != b[i].args[j] {
+				return false
+			}
+		}
+	}
+	return true
 }
